@@ -3,6 +3,7 @@ package http2
 import (
 	"bytes"
 	"errors"
+	"math"
 	"strconv"
 )
 
@@ -59,7 +60,14 @@ func parseUint(b []byte) (int, error) {
 			return 0, errInvalidUint
 		}
 
-		n = n*10 + int(c-'0')
+		d := int(c - '0')
+		if n > (math.MaxInt-d)/10 {
+			// The value does not fit in an int. Wrapping around would turn a
+			// huge content-length into a small one that the body can match.
+			return 0, errInvalidUint
+		}
+
+		n = n*10 + d
 	}
 
 	return n, nil
